@@ -33,13 +33,15 @@ fn cmd_run(args: &[Sx]) -> Result<Sx, String> {
         names.push(nv[0].atom().ok_or("var name")?.to_string());
         vals.push(val::from_sx(&nv[1])?);
     }
-    let inputs: Vec<Val> = args[2]
-        .list()
-        .ok_or("inputs")?
+    // `(cycle V...)`: an endless input stream repeating the given values
+    let in_list = args[2].list().ok_or("inputs")?;
+    let cycle = in_list.first().and_then(Sx::atom) == Some("cycle");
+    let inputs: Vec<Val> = in_list[usize::from(cycle)..]
         .iter()
         .map(val::from_sx)
         .collect::<Result<_, _>>()?;
     let limit: usize = args[3].atom().ok_or("limit")?.parse().map_err(|_| "limit")?;
+    let stop = args.get(4).and_then(Sx::atom) == Some("stop");
 
     let filter = match compile(&code, &names) {
         Ok(f) => f,
@@ -47,11 +49,15 @@ fn cmd_run(args: &[Sx]) -> Result<Sx, String> {
     };
     let n_inputs = inputs.len();
     let consumed = std::cell::Cell::new(0usize);
-    let inputs = inputs.into_iter().map(|v| {
+    let count = |v| {
         consumed.set(consumed.get() + 1);
         Ok::<Val, String>(v)
-    });
-    let inputs: Box<dyn Iterator<Item = Result<Val, String>>> = Box::new(inputs);
+    };
+    let inputs: Box<dyn Iterator<Item = Result<Val, String>>> = if cycle {
+        Box::new(inputs.into_iter().cycle().map(count))
+    } else {
+        Box::new(inputs.into_iter().map(count))
+    };
     let runner = Runner::default();
     let rc = RcIter::new(inputs);
     let data = Data {
@@ -71,7 +77,14 @@ fn cmd_run(args: &[Sx]) -> Result<Sx, String> {
                 break 'outer;
             }
             match y {
-                Ok(v) => outs.push(val::to_sx(&v)),
+                Ok(v) => {
+                    outs.push(val::to_sx(&v));
+                    // `stop`: a consumer that drops the iterator right after its `limit`-th output
+                    if stop && outs.len() == limit {
+                        term = a("cut");
+                        break 'outer;
+                    }
+                }
                 Err(e) => {
                     term = match e.get_err() {
                         Ok(e) => err_sx(e),
